@@ -422,6 +422,11 @@ pub fn run(cx: &mut Cx) {
     ] {
         cx.ev.require(k);
     }
+    cx.ev.require("glob/confusable/false");
+    cx.ev.require("glob/repeat-head/false");
+    if matches!(cx.tier, Tier::Quick | Tier::Thorough) {
+        cx.ev.require("workload/hash-collisions");
+    }
     let n = cx.per_shard(60, 8_000, 480_000, 2_400_000);
     let mut r = cx.stream("tokens");
     for _ in 0..n {
